@@ -44,6 +44,60 @@ def gk_deadlock_free(prog):
     return True
 
 
+def wf_thread(ops):
+    """the static discipline check of one thread (mirror of wf_from, used to validate generated cases)"""
+    fr = "R" in ops
+    so = fr
+    a = b = 0
+    for o in ops:
+        k = o[0]
+        if k == "M":
+            return False
+        if k == "R":
+            if not fr:
+                return False
+            fr, so = False, False
+        elif k in "tp":
+            v = int(o[1:])
+            if v > 0 and not (fr or a + b > 0):
+                return False
+            if k == "t":
+                a += v
+            else:
+                b += v
+            if a < 0 or b < 0:
+                return False
+        elif k == "T":
+            v = int(o[1:])
+            if not (fr and so and v >= 0):
+                return False
+            a = v
+        elif k == "P":
+            v = int(o[1:]) - (1 if a > 0 else 0)
+            if not (fr and so and v >= 0):
+                return False
+            b = v
+        elif k == "G":
+            if o[1] == "t":
+                a -= 1
+            else:
+                b -= 1
+            if a < 0 or b < 0:
+                return False
+            so = False
+        elif k == "K":
+            if o[1] == "t":
+                a += 1
+            else:
+                b += 1
+    return not fr
+
+
+def wf_prog(prog):
+    return all(wf_thread(th) for th in prog) and sum(1 for th in prog if "R" in th) == 1 \
+        and all(th.count("R") <= 1 for th in prog)
+
+
 class C10(Check):
     id = "C10"
     prop_file = "theories/Properties/Properties_C10.v"
@@ -77,7 +131,7 @@ class C10(Check):
                  "(ucontext coroutines, macro-interposed atomics) of the real termdet_local module")
     rule = ("disciplined programs generated by a reference-tracking random walk (1..5 threads, zero crossings of both counters before "
             "ready and of nb_tasks while another reference is held, ready early/middle/late, hand-overs), balanced or leaving a "
-            "reference; schedules sequential / round-robin / bursts / random; plus an undisciplined stream compared with the model "
+            "reference; schedules sequential / round-robin / bursts / one-step lag / stalls in the middle of an operation / random, and directed races of a decrement with ready; plus an undisciplined stream compared with the model "
             "only; non-trivial = at least 2 threads and an interleaving schedule; distinct = case text")
     trusted = ("cosched.h/interpose.h scheduling points; fake taskpool, counting callback and mailbox in harness/h_termlocal.c",)
     assumptions = ("sequentially consistent atomics (parsec_atomic_* are full-barrier builtins)",
@@ -86,7 +140,7 @@ class C10(Check):
 
     # ------------------------------------------------------------------
     def sched(self, r, nt, total):
-        kind = r.below(7)
+        kind = r.below(10)
         if kind == 0:       # sequential in a random thread order
             return [t for t in r.shuffle(range(nt)) for _ in range(total)]
         if kind == 1:       # round robin
@@ -103,6 +157,22 @@ class C10(Check):
             for _ in range(total):
                 o = r.shuffle(range(nt))
                 s += o + o[:-1]
+            return s
+        if kind in (5, 6, 7):   # stalls: a thread stops in the middle of an operation while the others run on
+            s = []
+            for _ in range(r.range(1, 4)):
+                m = r.below(nt)
+                s += [m] * r.range(1, total)
+                others = [t for t in range(nt) if t != m]
+                if kind == 5:
+                    for t in r.shuffle(others):
+                        s += [t] * r.range(1, total)
+                elif kind == 6:
+                    for _ in range(r.range(1, total)):
+                        s += others
+                else:
+                    s += [r.pick(others + [m]) for _ in range(r.range(1, 2 * total))]
+                s += [m] * r.range(0, 3)
             return s
         return [r.below(nt) for _ in range(r.range(0, total * nt))]
 
@@ -258,17 +328,28 @@ class C10(Check):
                                              " ".join(map(str, s)), d, b)
 
     DIRECTED = [
-        # decrement to zero racing with ready (both see BUSY and 0: exactly one CAS wins)
-        "1 | p1 Gp R ; Kp p-1 | 0 0 0 1 1 1 0 1 0 1 | d=1 b=1",
-        "1 | p1 Gp R ; Kp p-1 | 0 0 0 1 1 0 1 1 0 | d=1 b=1",
-        "1 | p1 Gp R ; Kp p-1 | 0 0 0 0 1 1 1 1 1 1 1 0 0 | d=1 b=1",
-        # nb_tasks crosses zero while the pending-action reference is held
+        # a decrement to zero racing with ready: thread 1 fires between ready's CAS to BUSY and its read of the counter
+        "1 | p1 Gp R ; Kp p-1 | 0 0 0 0 0 1 1 1 1 0 0 | d=1 b=1",
+        # both see BUSY and 0; thread 1 wins the CAS / thread 0 wins the CAS
+        "1 | p1 Gp R ; Kp p-1 | 0 0 0 0 0 1 1 1 0 1 | d=1 b=1",
+        "1 | p1 Gp R ; Kp p-1 | 0 0 0 0 0 1 1 1 0 0 1 | d=1 b=1",
+        # thread 1 completes the whole termination (callback, TERMINATED, release) before ready retains
+        "1 | p1 Gp R ; Kp p-1 | 0 0 0 0 0 1 1 1 1 1 1 1 1 0 0 | d=1 b=1",
+        "2 | p1 Gp R Q ; Kp p-1 Q | 0 0 0 0 0 1 1 1 1 1 1 1 1 0 0 | d=1 b=1",
+        # the decrement lands while the monitor is still NOT_READY: ready itself must detect
+        "1 | p1 Gp R ; Kp p-1 | 0 0 0 0 1 1 1 0 0 0 | d=1 b=1",
+        # nb_tasks 1 -> 0 before ready with the nb_pending_actions decrement delayed past ready's read
+        "1 | t1 Gt R ; Kt t-1 | 0 0 0 0 0 0 1 1 1 0 1 1 | d=1 b=1",
+        "1 | t1 Gt R ; Kt t-1 | 0 0 0 0 0 1 1 1 1 0 0 0 | d=1 b=1",
+        "1 | t1 Gt R ; Kt t-1 | 0 0 0 0 0 1 1 1 0 0 1 0 1 | d=1 b=1",
+        # nb_tasks crosses zero twice while the pending-action reference is held
         "2 | p1 t1 Gt t1 Gt R p-1 ; Kt t-1 ; Kt t-1 | 0 0 0 0 0 0 1 1 1 2 2 2 0 0 1 2 | d=1 b=1",
-        # zero crossing before ready with the nb_pending_actions update delayed
-        "1 | t1 Gt R ; Kt t-1 | 0 0 0 0 1 1 1 0 0 1 0 1 | d=1 b=1",
-        "1 | t1 Gt R ; Kt t-1 | 0 0 0 0 1 1 0 0 0 1 1 | d=1 b=1",
+        "2 | p2 t1 Gt Gp R p-1 ; Kt Kp t-1 t1 t-1 p-1 | 0 0 0 0 0 0 0 1 1 1 1 0 0 0 1 1 1 1 1 0 0 1 1 1 | d=1 b=1",
+        "2 | p2 t1 Gt Gp R p-1 ; Kt Kp t-1 t1 t-1 p-1 | 0 0 0 0 0 0 0 1 1 1 1 0 0 0 1 1 1 0 0 0 1 1 1 1 | d=1 b=1",
         # DTD-like: set 0/0, open reference, insert, run, wait
         "1 | T0 P0 p1 t1 Gt t1 Gt R p-1 ; Kt t-1 Q ; Kt t-1 Q | 1 2 0 0 0 0 0 0 0 1 2 1 2 0 0 0 1 2 0 0 | d=1 b=1",
+        # set_nb_tasks / set_runtime_actions crossing zero in the set-up phase
+        "1 | T2 P1 T0 P1 t1 R t-1 p-1 Q | | d=1 b=1",
         # ready with nothing registered terminates at once
         "1 | R Q | | d=1 b=1",
         # undisciplined: an increment overtakes the CAS (model/implementation comparison only)
@@ -288,6 +369,10 @@ class C10(Check):
                     continue
                 prog, bal = g
                 out.append(self.fmt(r, prog, 1, 1 if bal else 0))
+        for c in out:
+            f = [x.strip() for x in c.split("|")]
+            if "d=1" in f[3] and not wf_prog(parse_prog(f[1])):
+                raise RuntimeError("generator produced an undisciplined case tagged d=1: " + c)
         return out
 
     def nontrivial_key(self, case):
